@@ -240,3 +240,17 @@ package forwarder
 //@   ensures[C17] ks_i32 == old(ks_i32) && ks_pair == old(ks_pair)
 
 //@ lemma[C17] enumRoundTripP: forall S (Array Int (Array String Bool)), p int, c string :: enumFactsP(S) ==> (S[p][c] <==> (exists j int :: 0 <= j && j < enumLenP(S) && enumAtP(S, j).key1 == p && enumAtP(S, j).key2 == c))
+
+// ---------------------------------------------------------------------------------------------
+// Object invariant: the injected dependencies are present. Proved on the constructor (New ends in
+// Validate), protected by the scan typeinv#immutable (no allocation or field store outside New).
+// Panic freedom (C14, C11, C17) may rely on it for every non-nil *Forwarder.
+// ---------------------------------------------------------------------------------------------
+//@ macro forwarderWF(f) = f.logger != nil && f.eventService != nil && f.bankKeeper != nil && f.router != nil
+//@ typeinv Forwarder forwarderWF New SetRouter
+//@ func New(cdc, sb, logger, eventService, bankKeeper) (result, err)
+//@   ensures[C11,C14,C17] err == nil ==> result != nil && forwarderWF(result)
+//   SetRouter is the one other function that stores to a field: it replaces the router by a non-nil one
+//@ func (f *Forwarder) SetRouter(r) (err)
+//@   modifies f.router, r.sealed
+//@   ensures[C11,C14,C17] f != nil ==> forwarderWF(f)
